@@ -8,7 +8,7 @@ Only property theorems live here; helper lemmas are in `Proofs/Encoding.lean` an
 `Proofs/SwarEncoding.lean`, reference definitions in `Spec/Encoding.lean`.
 -/
 namespace Jomini.Props.C12
-open Jomini Jomini.Encoding Jomini.Spec.Encoding
+open Jomini Jomini.Encoding Jomini.Spec.Encoding Jomini.Spec.Encoding.Utf8
 
 /-- the `WINDOWS_1252` table of the compiled code (measured through the public decoder on
 every run) is the Windows-1252 code page. -/
@@ -64,5 +64,46 @@ theorem C12_win1252_borrowed_iff (d : Bytes) :
       simp only [Bool.not_eq_true, List.any_eq_false, Bool.or_eq_true, not_or] at h
       intro x hx; have := h x hx; simpa [isAscii] using this
   · intro h; exact ⟨_, (C12_borrowed d h).1⟩
+
+/-- **UTF-8 decoding equals the reference mapping** (and never panics): the bytes of the
+returned text are the lossy decoding (maximal-subpart U+FFFD replacement) of the input after
+trimming trailing ASCII whitespace and deleting backslashes — whichever of the three exits
+of `decode_utf8` is taken (escape found by the SWAR scan, ASCII fast path, `from_utf8_lossy`). -/
+theorem C12_utf8 (d : Bytes) :
+    ∃ c, decodeUtf8 d = .ok c ∧ c.bytes = lossy (unescape (trim d)) := by
+  obtain ⟨c, h1, h2, -⟩ := decodeUtf8_spec d
+  exact ⟨c, h1, h2⟩
+
+-- "J\xc3\xa5\\h\xff " ↦ "Jåh\u{FFFD}"
+example : decodeUtf8 [0x4a, 0xc3, 0xa5, 0x5c, 0x68, 0xff, 0x20] = .ok (.owned [0x4a, 0xc3, 0xa5, 0x68, 0xef, 0xbf, 0xbd]) := by
+  decide +kernel
+example : lossy (unescape (trim [0x4a, 0xc3, 0xa5, 0x5c, 0x68, 0xff, 0x20])) = [0x4a, 0xc3, 0xa5, 0x68, 0xef, 0xbf, 0xbd] := by
+  decide +kernel
+
+/-- **the result is always valid UTF-8**, for both decoders and on every exit, in particular
+on the borrowed ones where the Rust uses `from_utf8_unchecked`: there validity follows from
+what the scans established (every byte ASCII; or `from_utf8_lossy` found no invalid part). -/
+theorem C12_valid (d : Bytes) :
+    (∃ c, decodeWindows1252 d = .ok c ∧ Valid c.bytes) ∧
+    (∃ c, decodeUtf8 d = .ok c ∧ Valid c.bytes) := by
+  constructor
+  · exact decodeWindows1252_valid d
+  · obtain ⟨c, h1, h2, -⟩ := decodeUtf8_spec d
+    exact ⟨c, h1, by rw [Valid, h2]; exact lossy_valid _⟩
+
+example : ∃ c, decodeUtf8 [0xc3, 0x28] = .ok c ∧ Valid c.bytes := (C12_valid _).2
+example : ¬ Valid [0xc3, 0x28] := by decide
+
+/-- when `decode_utf8` returns a borrowed string it is the trimmed input itself, the input
+contains no escape, and it is well-formed UTF-8 (so borrowing it as `&str` is sound). -/
+theorem C12_utf8_borrowed_sound (d b : Bytes) (h : decodeUtf8 d = .ok (.borrowed b)) :
+    b = trim d ∧ Valid (trim d) := by
+  obtain ⟨c, h1, -, h3⟩ := decodeUtf8_spec d
+  rw [h] at h1
+  cases h1
+  exact h3 rfl
+
+-- valid non-ASCII UTF-8 without escapes is borrowed too
+example : decodeUtf8 [0xc3, 0xa5] = .ok (.borrowed [0xc3, 0xa5]) := by decide +kernel
 
 end Jomini.Props.C12
